@@ -81,7 +81,12 @@ func (e *EngineApplier) applyInReadOnlyMode(entry *wal.Entry) error {
 		return e.engine.Delete(entry.Key)
 
 	case wal.OpTypeMerge:
-		// Handle merge as a put operation for compatibility
+		// Handle merge as a put operation for compatibility. Use the internal
+		// interface as for puts: switching read-only mode off for the duration of
+		// the call would let client writes through meanwhile.
+		if putter, ok := e.engine.(interface{ PutInternal(key, value []byte) error }); ok {
+			return putter.PutInternal(entry.Key, entry.Value)
+		}
 		if setter, ok := e.engine.(interface{ SetReadOnly(bool) }); ok {
 			setter.SetReadOnly(false)
 			err := e.engine.Put(entry.Key, entry.Value)
